@@ -15,8 +15,10 @@ import (
 	"fmt"
 	"io"
 	"math/big"
+	"strings"
 	"testing/iotest"
 	"time"
+	"unicode/utf8"
 
 	"github.com/lestrrat-go/jwx/v2/jwk"
 
@@ -345,10 +347,19 @@ func runTimeParse(ctx *core.Ctx, in input) {
 }
 
 func runUpper(ctx *core.Ctx, in input) {
+	var got []byte
 	o := guardAll([]epCall{{"streams.UppercaseTransformer", func() error {
-		_, err := io.ReadAll(streams.UppercaseTransformer(encReader(in)))
+		var err error
+		got, err = io.ReadAll(streams.UppercaseTransformer(encReader(in)))
 		return err
 	}}})
+	// valid UTF-8 delivered without a scripted read error must come out as strings.ToUpper has it
+	if o.cls == clsOk && in.Which != 4 && utf8.Valid(in.Data) && string(got) != strings.ToUpper(string(in.Data)) {
+		ctx.Sink.Add(hx.Case{Kind: in.Kind, Input: hx.MustJSON(in), Class: "upper/mismatch", Direct: 1,
+			Observed: map[string]any{"outcome": "differs from strings.ToUpper", "got": fmt.Sprintf("% x", got)},
+			Note:     "UppercaseTransformer output differs from strings.ToUpper", Facts: map[string]any{"fn": "upper", "layer": "A-ref"}})
+		return
+	}
 	emitC(ctx, in, o, "upper/"+o.name())
 }
 
